@@ -292,15 +292,22 @@ def search(ctx):
 def replay(rec):
     from ecdsa import curves as C
     i = rec["input"]
-    cv = next(c for c in C.curves if c.name == i["curve"])
+    if not isinstance(i, dict) or "curve" not in i or "d" not in i:
+        K.cannot_replay("C09 records are {curve, d[, k3]}; got %r" % (i,))
+    cv = next((c for c in C.curves if c.name == i["curve"]), None)
+    if cv is None:
+        K.cannot_replay("unknown curve %r" % (i["curve"],))
+    d = int(i["d"])
     if i.get("k3"):
         k3 = []
-        try:
-            check_key(K.CurveInfo(cv), int(i["d"]), deep=False, k3=k3)
-        except Exception:  # noqa
-            return True
-        return bool(k3)
+        bad = run_check_key(K.CurveInfo(cv), d, False, k3)
+        return bool(k3) or bool(bad)
+    return bool(run_check_key(K.CurveInfo(cv), d, True, []))
+
+
+def run_check_key(ci, d, deep, k3):
+    """check_key with an escaping exception turned into a failure description, exactly as the search records it"""
     try:
-        return bool(check_key(K.CurveInfo(cv), int(i["d"])))
-    except Exception:  # noqa
-        return True
+        return check_key(ci, d, deep=deep, k3=k3)
+    except Exception as e:  # noqa
+        return ["exception %s" % common.errname(e)]
